@@ -6,6 +6,8 @@ from gen import *
 from runner import Part, run_sharded
 from peers import PeerRun
 import lc
+import joint
+from runner import ddmin_ops
 
 THEOREMS = 'IsoTp.Props.C01'
 RULE = ('two real layers with mirrored (symmetric or asymmetric) random addresses joined by FIFO links; message lists of 1-4 payloads '
@@ -162,10 +164,163 @@ def check_against_model(part, campaign, pr, fails, sample, theorem):
     return True
 
 
+
+# ------------------------------------------------------------------------------------------------
+# joint campaign: the statement of C01_every_schedule / C10_both_directions evaluated on two real layers joined directly, and the
+# same call list on the extracted Coq joint model (Model/Joint.v cstep)
+def gen_joint(rng, tier):
+    a, b = rand_inst_pair(rng)
+    pa, pb = rand_params(rng), rand_params(rng)
+    for p in (pa, pb):
+        for k in ('listen_mode', 'default_target_address_type', 'rate_limit_enable', 'rate_limit_max_bitrate', 'rate_limit_window_size'):
+            p.pop(k, None)
+        p['rx_flowcontrol_timeout'] = rng.choice([1000, 1000, 50])
+        p['rx_consecutive_frame_timeout'] = rng.choice([1000, 1000, 50])
+        p['max_frame_size'] = rng.choice([4095, 65535, 300])
+        if rng.random() < 0.5:
+            p['stmin'] = rng.choice([0, 0, 1, 0xF3])
+        if rng.random() < 0.6:
+            p['blocksize'] = rng.choice([0, 1, 2, 3, 8])
+    plen = {'A': 1 if a['txa']['mode'].startswith(('Extended', 'Mixed')) else 0, 'B': 1 if b['txa']['mode'].startswith(('Extended', 'Mixed')) else 0}
+    par = {'A': pa, 'B': pb}
+    calls = []
+    nsend = {'A': rng.randint(0, 3), 'B': rng.randint(0, 3)}
+    if nsend['A'] + nsend['B'] == 0:
+        nsend['A'] = 1
+    pending = [sd for sd in 'AB' for _ in range(nsend[sd])]
+    rng.shuffle(pending)
+    steps = rng.randint(20, 120)
+    big_tick = rng.random() < 0.15
+    for i in range(steps):
+        r = rng.random()
+        sd = rng.choice('AB')
+        if pending and (r < 0.12 or i == 0):
+            sd = pending.pop()
+            other = 'B' if sd == 'A' else 'A'
+            lens = boundary_lengths(rng, par[sd], plen[sd], min(300, par[other]['max_frame_size']))
+            L = rng.choice(lens) if rng.random() < 0.7 else rng.randint(1, min(300, par[other]['max_frame_size']))
+            calls.append(['send', sd, None, hx(bytes(rng.getrandbits(8) for _ in range(L)))])
+        elif r < 0.75:
+            fl = rng.choice([(1, 1), (1, 1), (1, 1), (0, 1), (1, 0)])
+            calls.append(['proc', sd, fl[0], fl[1]])
+        elif r < 0.9:
+            d = rng.choice([0, 1000, 10**6, 2 * 10**6, 10**7])
+            if big_tick and rng.random() < 0.1:
+                d = rng.choice([49 * 10**6, 51 * 10**6, 10**9 + 1])
+            calls.append(['tick', 'A', d])
+            calls.append(['tick', 'B', d])
+        else:
+            calls.append(['recv', sd])
+    # closing schedule: let everything drain, then read everything
+    for _ in range(rng.choice([0, 40, 400])):
+        calls.append(['proc', 'A', 1, 1]); calls.append(['proc', 'B', 1, 1])
+        calls.append(['tick', 'A', 2 * 10**6]); calls.append(['tick', 'B', 2 * 10**6])
+    for sd in 'AB':
+        for _ in range(4):
+            calls.append(['recv', sd])
+    return {'insts': [dict(a, params=pa), dict(b, params=pb)], 'calls': calls}
+
+
+def oracle_joint(lines):
+    """The conclusion of C01_every_schedule on the observed run (after the closing recv() calls the queues are empty)."""
+    sent, got, errs = joint.observe(lines)
+    if errs['A'] or errs['B']:
+        if any(e == 'crash' for e in errs['A'] + errs['B']):
+            return [('C01:exception-escaped', 'an exception escaped a public call in a joint run')], 'error'
+        return [], 'error'
+    fails = []
+    for src, dst in (('A', 'B'), ('B', 'A')):
+        if got[dst] != sent[src][:len(got[dst])]:
+            fails.append(('C01:joint-not-a-prefix', '%s received %s, %s sent %s' % (dst, [len(x) // 2 for x in got[dst]], src, [len(x) // 2 for x in sent[src]])))
+    st = lines[-1].split(' | ')[1]
+    rest = st.startswith('inA=0 inB=0') and 'rx=1' not in st and 'trans=1' not in st and 'avail=1' not in st
+    if rest:
+        for src, dst in (('A', 'B'), ('B', 'A')):
+            if got[dst] != sent[src]:
+                fails.append(('C01:joint-lost-at-rest', 'at rest with no error, but %s received %d of the %d payloads %s sent' % (dst, len(got[dst]), len(sent[src]), src)))
+    return fails, ('rest' if rest else 'moving')
+
+
+def run_joint_case(part, campaign, case, theorem):
+    part.d['evaluations'] += 1
+    il, _ = joint.run_impl_joint(case)
+    fails, kind = oracle_joint(il)
+    part.hist('joint_outcome', kind)
+    part.hist('joint_calls', min(2000, len(case['calls']) // 50 * 50))
+    sent, got, errs = joint.observe(il)
+    part.hist('joint_msgs', '%d+%d' % (len(sent['A']), len(sent['B'])))
+    for e in errs['A'] + errs['B']:
+        part.hist('events', e)
+    part.distinct({'i': case['insts'], 'n': len(case['calls']), 'c': case['calls'][:6]})
+
+    def as_ops(c):
+        return {'insts': c['insts'], 'ops': c['calls']}
+
+    if fails:
+        sig = fails[0][0]
+
+        def still(c):
+            try:
+                l2, _ = joint.run_impl_joint({'insts': c['insts'], 'calls': c['ops']})
+                f2, _ = oracle_joint(l2)
+                return bool(f2) and f2[0][0] == sig
+            except Exception:
+                return False
+        small = ddmin_ops(as_ops(case), still)
+        small = {'insts': small['insts'], 'calls': small['ops']}
+        l2, _ = joint.run_impl_joint(small)
+        f2, _ = oracle_joint(l2)
+        part.violation('oracle', campaign, sig, (f2 or fails)[0][1], small, {'impl_trace': l2, 'joint': True})
+        return False
+    ml = joint.run_model_joint(case)
+    part.d['traces_validated'] += 1
+    d = first_diff(il, ml)
+    if d is not None:
+        def differs(c):
+            try:
+                cc = {'insts': c['insts'], 'calls': c['ops']}
+                return first_diff(joint.run_impl_joint(cc)[0], joint.run_model_joint(cc)) is not None
+            except Exception:
+                return False
+        small = ddmin_ops(as_ops(case), differs)
+        small = {'insts': small['insts'], 'calls': small['ops']}
+        l2, _ = joint.run_impl_joint(small)
+        m2 = joint.run_model_joint(small)
+        f2, _ = oracle_joint(l2)
+        if f2:
+            part.violation('oracle', campaign, f2[0][0], f2[0][1], small, {'impl_trace': l2, 'model_trace': m2, 'joint': True})
+        else:
+            dd = first_diff(l2, m2)
+            part.violation('correspondence', campaign, 'corr:' + campaign,
+                           'joint model (Model/Joint.v cstep) and the two joined layers disagree at call %s: %s' % (dd, small['calls'][dd] if dd is not None and dd < len(small['calls']) else None),
+                           small, {'impl_line': l2[dd] if dd is not None and dd < len(l2) else None, 'model_line': m2[dd] if dd is not None and dd < len(m2) else None,
+                                   'theorem_or_correspondence': theorem, 'joint': True})
+        return False
+    return True
+
+
+def replay(v):
+    """./check C01 --replay file"""
+    case = v.get('case')
+    if case and 'calls' in case:
+        il, _ = joint.run_impl_joint(case)
+        ml = joint.run_model_joint(case)
+        for c, x, y in zip(case['calls'], il, ml):
+            print(c, '\n  impl :', x, '\n  model:', y)
+        f, kind = oracle_joint(il)
+        print('oracle:', f, kind, 'first difference at call', first_diff(il, ml))
+        return 1 if (f or first_diff(il, ml) is not None) else 0
+    import check_main
+    return check_main.generic_replay(v)
+
 def run_shard(campaign, shard, nshards, seed, tier):
     part = Part()
     rng = random.Random('%s/%s/%s' % (seed, campaign, shard))
     quick = tier != 'thorough'
+    if campaign == 'joint':
+        for i in range((150 if quick else 6000) // nshards + 1):
+            run_joint_case(part, campaign, gen_joint(rng, tier), THEOREMS)
+        return part.result()
     if campaign == 'both_ways':
         import C10
         for i in range((60 if quick else 3000) // nshards + 1):
@@ -202,4 +357,5 @@ def run(ctx):
     run_sharded(ctx, 'C01', 'transfers')
     run_sharded(ctx, 'C01', 'both_ways')
     run_sharded(ctx, 'C01', 'big')
+    run_sharded(ctx, 'C01', 'joint')
     return RULE, ASSUME
